@@ -311,6 +311,7 @@ func (store *HStore) GC(bucketID, beginChunkID, endChunkID, noGCDays int, merge,
 	if pretend {
 		return
 	}
+	verifPoint("gc.request.checked")
 
 	go store.gcMgr.gc(bkt, begin, end, merge)
 	return
